@@ -349,6 +349,9 @@ def s_annot(tier, seed, out):
         # probe their neighbours with a scratch builder: any word class may leave something behind)
         vocab_all = [w for w in bank(lang)["num"] if w and " " not in w and len(w) < 20]
         # + hyphenated compounds of vocabulary words, the conjunction included (valid ones and ones that end mid-number)
+        core = (["one", "two", "nine", "twenty", "ninety", "hundred", "thousand", "million", "and"] if lang == "en"
+                else ["un", "deux", "neuf", "vingt", "cent", "mille", "million", "et", "dix"])
+        vocab_all = vocab_all + ["-".join(rng.choice(core) for _ in range(4 + rng.below(5))) for _ in range(80)]
         cj = "and" if lang == "en" else "et"
         base = [w for w in vocab_all if w.isalpha()]
         vocab_all = vocab_all + [rng.choice(base) + "-" + cj for _ in range(40)] + [cj + "-" + rng.choice(base) for _ in range(20)] + \
